@@ -43,6 +43,10 @@ func GenLockScript(r *Rng, hist map[string]int) []string {
 				add("openchild %s", genCfg(r, o2, hist))
 				hist["lock_openchild_free"]++
 			}
+			if r.Chance(1, 3) {
+				add("openbg %s", genCfg(r, o2, hist))
+				hist["lock_open_with_background_merge"]++
+			}
 			if r.Chance(1, 4) {
 				add("openrace %d %s", 2+r.Intn(3), genCfg(r, o2, hist))
 				hist["lock_race_used"]++
